@@ -203,6 +203,10 @@ def run(ck):
         forged.append(("ks0", base[:528] + bytes(480), pis, "degenerate: honest commitments, all-zero evaluations", True))
         forged.append(("ks0", G1_GEN * 11 + (1).to_bytes(32, "little") * 15, pis, "degenerate: all-generator commitments, all-one evaluations", True))
         forged.append(("ks0", base[:432] + ident * 2 + base[528:], pis, "degenerate: identity opening witnesses", True))
+    # adversary that replays the transcript: aim at the FALSE public input p+1 and shift the two opening
+    # witnesses by multiples of the generator, W_z += c g, W_zw -= (c/u) g with c = +-dPI(z)/(z(1-w)); needs the
+    # batching challenge u to be known before W_zw is fixed, which the protocol's transcript order rules out
+    forged += correlated_shift_forgeries(ck, S2, circs, P, r2)
     S3 = protocol.Script(); S3.lines = list(S2.lines); S3.n = S2.n
     ids = []
     for j, (key, pb, pis, desc, mr) in enumerate(forged):
@@ -220,6 +224,48 @@ def run(ck):
         rule="prover strategies: Prover::prove forced past its CircuitUnsatisfied check (cfg-guarded switch) on assignments with one witness overridden, raw rows of every widget family with random wires, single widget rows cut from real range / logic / curve-addition / fixed-base gadgets with each of their 8 wire values perturbed in isolation (classified by which component of the widget they violate), public-input witness mismatch, copy constraint broken with all rows satisfied; field-wise splices of two valid proofs (same circuit, different randomness / different witness); degenerate proofs under several public-input vectors. Oracle: the extracted, proved row evaluator on (compiled selectors, prover's wires) plus the copy-class check decides whether the statement is false; false => the real verifier must reject, true => accept; forced proofs are also handed to the Gallina reference verifier",
         assumptions=["KZG binding / knowledge soundness (AGM) and Fiat-Shamir in the random-oracle model: not mechanised", "the explored strategies are those named in the property; an adversary with the SRS trapdoor is out of scope"],
         checker_cmd=proofgate.CHECKER_CMD, trusted_base=proofgate.TRUSTED)
+
+def correlated_shift_forgeries(ck, S2, circs, P, r2):
+    """adversary that runs the prover on the FALSE public input p+1 (forced past the unsatisfied check), learns the
+    discrepancy point D of the verifier's equation, and shifts W_z += k D, W_zw -= (k/u) D with k = -1/(z(1-w)).
+    It needs the batching challenge u before W_zw is fixed; the protocol's transcript order rules that out."""
+    from .c03 import g1lin, W32
+    out = []
+    body = circs["s1"]
+    p_true = int(body[0].split()[1], 16)
+    S = protocol.Script(); S.lines = list(S2.lines); S.n = S2.n
+    S.circuit("s1f", ["pub " + hx((p_true + 1) % R), "setw 6 " + hx(p_true)] + body[1:])
+    pf = S.cmd("prove", "pf", "ks1", "s1f", 55, "V3", "force")
+    vb_id = S.cmd("verifierbytes", "ks1"); sn = S.cmd("snapshot", "s1"); v0 = S.cmd("verify", "ks1", "pf", "=")
+    r = protocol.run(S, "c02_cs0")
+    if not r[pf].startswith("OK"): return out
+    t = r[pf].split(); base = bytes.fromhex(t[1]); false_pis = [int(x, 16) for x in t[2][3:].split(",")]
+    pa = ",".join(hx(p) for p in false_pis)
+    m = re.search(r"ch=([0-9a-f,]*)", r[v0])
+    if r[v0].startswith("OK") or not m or not m.group(1): return out
+    z = int(m.group(1).split(",")[7], 16)
+    vbhex = r[vb_id].split()[1]; vb = bytes.fromhex(vbhex)
+    snap = protocol.parse_snapshot(r[sn])
+    n = npo2(len(snap.gates)); lg = n.bit_length() - 1
+    w = pow(W32, 1 << (32 - lg), R)
+    rc, o, e = run_driver(f"VD d V3 {hx(XSEC)} {vbhex} {base.hex()} {pa}\n", "c02_vd")
+    D = bytes.fromhex(o.split()[2]) if rc == 0 and len(o.split()) > 2 else None
+    if D is None: return out
+    k = (-pow(z * (1 - w) % R, R - 2, R)) % R
+    wz2 = g1lin(base[432:480], k, D, "c02_cs_a")
+    if wz2 is None: return out
+    p1 = base[:432] + wz2 + base[480:]
+    S1 = protocol.Script(); S1.lines = list(S2.lines); S1.n = S2.n
+    S1.cmd("proofbytes", "cs1", p1.hex(), pa); v1 = S1.cmd("verify", "ks1", "cs1", pa)
+    r1 = protocol.run(S1, "c02_cs1")
+    m1 = re.search(r"ch=([0-9a-f,]*)", r1[v1])
+    if not m1 or not m1.group(1): return out
+    u = int(m1.group(1).split(",")[10], 16)
+    if u == 0: return out
+    wzw2 = g1lin(base[480:528], (-k * pow(u, R - 2, R)) % R, D, "c02_cs_b")
+    if wzw2 is None: return out
+    out.append(("ks1", base[:432] + wz2 + wzw2 + base[528:], false_pis, "correlated shift of both opening witnesses by multiples of the verifier's own discrepancy point (false public input)", True))
+    return out
 
 def replay(ck, path):
     print(json.dumps(json.load(open(path))["replay"], indent=1)[:3000]); return 0
